@@ -96,6 +96,8 @@ def fresh_process_workflow(ctx, tr, zstep):
         except OSError:
             pass
     same_status = all((status[k][0] == "ok") == (w["status"].get({"set-zeta-grid": "grid"}.get(k, k), ("x",))[0] == "ok") for k in status)
+    if any(status[k][0] != "ok" for k in ("load", "classify", "set-zeta-grid")):
+        same_status = False       # a planted record always gets this far: equal failures are not agreement
     diff = [name for name in got if got[name] != w["tables"][name]]
     ctx.case(("c06-subprocess", tr.describe(), zstep), True)
     ctx.obligation(ob, same_status and not diff)
